@@ -1,17 +1,18 @@
 //@ tu: libxcm/core/attr_tree.c libxcm/core/attr_node.c libxcm/core/attr_path.c
 //@ nondfcc: 1
-//@ bounded: one tree of five value nodes ("a", "b.c", "b.d", "l[0]", "l[1]": root dictionary, a dictionary and a list below it) (links written by the harness, see _tree.h); every name string of 0..5 arbitrary characters; arbitrary node types/modes, capacity 0..600, len 0..16
-//@ flags: --unwind 9 --object-bits 10
+//@ bounded: one tree of five value nodes ("a", "b.c", "b.d", "l[0]", "l[1]": root dictionary, a dictionary and a list below it) (links written by the harness, see _tree.h); every name string of 0..4 arbitrary characters; arbitrary node types/modes, values of 0..24 bytes, capacity 0..32, len 0..9
+//@ flags: --unwind 7 --object-bits 10
 //@ props: C10
 //@ expect: assertion>=10 canary=8
 //@ timeout: 900
+#define TB_NEED_MAX 24
 #include "_tree.h"
-#define L 5
+#define L 4
 char nondet_char(void);
 /* attr_tree_get_value and attr_tree_set_value on the REAL tree, the REAL attr_path_parse and the REAL node_lookup, for
- * every name of up to 5 characters: a name that is one of the five registered ones reaches exactly that node's getter /
+ * every name of up to 4 characters: a name that is one of the five registered ones reaches exactly that node's getter /
  * setter (once, with the caller's buffer / value), a name that is none of them and has no index part reaches nothing
- * (an index may be written in other ways -- "l[+0]", "l[ 1]", "l[00]" -- which resolve to the same element: unit attrpath),
+ * (an index may be written in other ways -- "l[+0]", "l[ 1]", "l[00]", not within 4 characters -- which resolve to the same element: unit attrpath),
  * and nothing is read or written out of bounds. */
 void harness(void)
 {
@@ -20,7 +21,7 @@ void harness(void)
 
     char *s = malloc(L + 1);
     __CPROVER_assume(s != NULL);
-    s[0] = nondet_char(); s[1] = nondet_char(); s[2] = nondet_char(); s[3] = nondet_char(); s[4] = nondet_char();
+    s[0] = nondet_char(); s[1] = nondet_char(); s[2] = nondet_char(); s[3] = nondet_char();
     s[L] = 0;
     size_t start = nondet_size_t();
     __CPROVER_assume(start <= L);
@@ -29,7 +30,7 @@ void harness(void)
 
     /* ---- get */
     size_t cap = nondet_size_t();
-    __CPROVER_assume(cap <= 600);
+    __CPROVER_assume(cap <= 32);
     uint8_t *buf = malloc(cap);      /* exactly cap bytes: any write beyond capacity is out of bounds */
     __CPROVER_assume(buf != NULL);
     enum xcm_attr_type t = 0;
@@ -62,7 +63,7 @@ void harness(void)
     int st = nondet_int();
     __CPROVER_assume(st >= 1 && st <= 5);
     size_t len = nondet_size_t();
-    __CPROVER_assume(len <= 16);
+    __CPROVER_assume(len <= 9);
     char *val = malloc(len);
     __CPROVER_assume(val != NULL);
     if (len > 0) val[len - 1] = 0;
